@@ -151,8 +151,11 @@ def run(ctx, H):
         for fw, ex, name in (("fw_actix", "ex_actix", "actix-web AwebJson"), ("fw_query", "ex_query", "actix-web AwebQueryParameter::from_query"),
                              ("fw_query", "ex_query_req", "actix-web AwebQueryParameter (FromRequest)"), ("fw_axum", "ex_axum", "axum AxumJson"),
                              ("fw_actix", "ex_actix_c", "actix-web AwebJson with a user error type (own response 422)"),
-                             ("fw_axum", "ex_axum_c", "axum AxumJson with a user error type (own response 422)")):
-            rows.append("(%d, mkHC t_%d %s %s ftl %s)" % (len(rows), e.tid, cfw(o[fw]), cex(o[ex]), "true" if ex.endswith("_c") else "false"))
+                             ("fw_axum", "ex_axum_c", "axum AxumJson with a user error type (own response 422)"),
+                             ("fw_actix", "ex_actix_c200", "actix-web AwebJson with a user error type answering 200"),
+                             ("fw_axum", "ex_axum_c200", "axum AxumJson with a user error type answering 200")):
+            custom = "(Some 422%N)" if ex.endswith("_c") else ("(Some 200%N)" if ex.endswith("_c200") else "None")
+            rows.append("(%d, mkHC t_%d %s %s ftl %s)" % (len(rows), e.tid, cfw(o[fw]), cex(o[ex]), custom))
             what.append((i, name, fw, ex))
     shards = min(C.NPROC, max(1, len(rows) // 200))
     files = []
